@@ -1335,6 +1335,27 @@ BENIGN = [
     }""")]),
     dict(name='c14-b-forwarding-flag-or-assigned', prop='C14', edits=[(FG_H,
         "            case put_item: if (internal_push(tmp)) try_forwarding = true; break;", "            case put_item: try_forwarding = internal_push(tmp) || try_forwarding; break;")]),
+    dict(name='c14-b-join-forward-spawn-in-helper', prop='C14', edits=[(FGJ_H, """                        if(tuple_build_may_succeed() && !forwarder_busy && is_graph_active(my_graph)) {
+                            d1::small_object_allocator allocator{};
+                            typedef forward_task_bypass< join_node_base<JP, InputTuple, OutputTuple> > task_type;
+                            graph_task* t = allocator.new_object<task_type>(my_graph, allocator, *this);
+                            spawn_in_graph_arena(my_graph, *t);
+                            forwarder_busy = true;
+                        }
+                        current->status.store( SUCCEEDED, std::memory_order_release);""", """                        spawn_forwarder_if_needed();
+                        current->status.store( SUCCEEDED, std::memory_order_release);"""),
+        (FGJ_H, """        void handle_operations(join_node_base_operation* op_list) {
+            join_node_base_operation *current;""", """        void spawn_forwarder_if_needed() {
+            if(tuple_build_may_succeed() && !forwarder_busy && is_graph_active(my_graph)) {
+                d1::small_object_allocator allocator{};
+                typedef forward_task_bypass< join_node_base<JP, InputTuple, OutputTuple> > task_type;
+                graph_task* t = allocator.new_object<task_type>(my_graph, allocator, *this);
+                spawn_in_graph_arena(my_graph, *t);
+                forwarder_busy = true;
+            }
+        }
+        void handle_operations(join_node_base_operation* op_list) {
+            join_node_base_operation *current;""")]),
     dict(name='c05-b-ratio-operands-commuted', prop='C05', edits=[('include/oneapi/tbb/blocked_range2d.h',
         "        if ( my_rows.size()*double(my_cols.grainsize()) < my_cols.size()*double(my_rows.grainsize()) ) {",
         "        if ( double(my_cols.grainsize())*my_rows.size() < double(my_rows.grainsize())*my_cols.size() ) {")]),
